@@ -1,6 +1,9 @@
 //! Suite `html` (C19): `xot.html5().serialize_string / serialize_write` on generated trees ×
 //! parameter sets.  The transcript lines are compared with the Lean model (`html string`,
 //! `html write`); the oracle of `html_oracle.rs` evaluates the property on the implementation.
+//! `html write_fail <k> …`: `serialize_write` into `common::FailingWriter { fail_at_call: k }` — outcome
+//! (`err:Io` at the refused call, never `panic`) and the bytes the writer holds, compared with the model
+//! (`serializeHtmlWriteW (budget k)`); oracle `common::failing_writer_verdict`.
 use crate::common::{enc, guarded, Rng, Sink};
 use crate::html_gen::*;
 use crate::html_oracle::*;
